@@ -109,7 +109,9 @@ def front(v, tier, seed):
     # 3. generation
     wcfg = "Notify_gen_window.cfg" if tier == "quick" else "Notify_gen_window_t.cfg"
     add(("gen", "window"), tlc("NotifyGen", wcfg, workers=2, timeout=1500, heap_gb=6))
-    num = {"quick": 150, "thorough": 2500}[tier]
+    for tag, c in (("cachex_list", "Notify_gen_cachex_list.cfg"), ("cachex_read", "Notify_gen_cachex_read.cfg")):
+        add(("gen", tag), tlc("NotifyGen", c, workers=1, timeout=1500, heap_gb=4))
+    num = {"quick": 100, "thorough": 2500}[tier]
     sims = [("mix", "Notify_gen_mix.cfg", num), ("ttl", "Notify_gen_ttl.cfg", num), ("off", "Notify_gen_off.cfg", num // 2)]
     for tag, c, n in sims:
         add(("sim", tag), tlc("NotifyGen", c, workers=1, timeout=1500, heap_gb=3, simulate="num=%d" % n, depth=600, seed=seed))
@@ -152,6 +154,14 @@ def front(v, tier, seed):
             beh.append(("window", p))
     if len(beh) < 100:
         raise vlib.MachineryError("window configuration exported only %d behaviours" % len(beh))
+    for tag, c in (("cachex_list", "Notify_gen_cachex_list.cfg"), ("cachex_read", "Notify_gen_cachex_read.cfg")):
+        res = got[("gen", tag)]
+        vlib.tlc_must_pass(res, c)
+        v.add_tlc(c + " (every complete behaviour)", res)
+        ps = [p for p in res.printed if isinstance(p, dict) and p.get("why") == "terminal"]
+        if not res.ok or len(ps) < 100:
+            raise vlib.MachineryError("%s: %s, %d behaviours" % (c, res.violation, len(ps)))
+        beh += [(tag, p) for p in ps]
     for tag, c, n in sims:
         r = got[("sim", tag)]
         if r.error or r.violation:
@@ -178,12 +188,18 @@ def steps_of(p):
 # scenarios
 
 CONF = {
-    # tag: (sessions, initOn, ttl, capOff, uris)
+    # tag: (sessions, initOn, ttl, capOff, uris); sessions in INIT_SUB are subscribed to every URI before the script starts
     "window": (["L1", "M1"], ["L1", "M1"], 0, [], []),
+    "cachex_list": (["M1"], ["M1"], 60000, [], []),
+    "cachex_read": (["M1"], ["M1"], 60000, [], ["u1"]),
     "mix": (["L1", "M1", "M2"], ["L1", "M1"], 0, [], ["u1"]),
     "ttl": (["L1", "M1"], ["L1", "M1"], 60000, [], ["u1"]),
     "off": (["L1", "M1", "M2"], ["L1", "M1"], 0, ["tools"], ["u1"]),
 }
+
+
+INIT_SUB = {"cachex_read": ["M1"]}
+EXHAUSTIVE = ("window", "cachex_list", "cachex_read")
 
 
 def sess_spec(name, rng, want_m2=True):
@@ -195,12 +211,14 @@ def sess_spec(name, rng, want_m2=True):
 
 def concretise(sid, tag, steps, rng, sessions, init_on, ttl, cap_off, uris, autolist=False, yield_=0):
     st = [["connect", s, ""] for s in init_on]
+    st += [["subscribe", s, u] for s in INIT_SUB.get(tag, []) for u in uris]
+    npre = len(st)
     for op, a1, a2 in steps:
         if op in ("change", "tchange"):
             a2 = rng.choice(["add", "add", "rm"])
         st.append([op, a1, a2])
     return {"id": sid, "tag": tag, "ttl": ttl, "capOff": cap_off, "uris": uris, "sessions": [sess_spec(s, rng) for s in sessions],
-            "steps": st, "autolist": autolist, "yield": yield_, "npre": len(init_on)}
+            "steps": st, "autolist": autolist, "yield": yield_, "npre": npre}
 
 
 def norm_proj(p, sessions=None):
@@ -259,15 +277,24 @@ def era_of(trows, s):
     return "?"
 
 
-def ops_pattern(trows, upto):
-    ops = [r["op"] for r in trows[:upto + 1] if r.get("ev") == "step"]
+def ops_pattern(trows, upto, n):
+    """Timing pattern of the burst: changes of notification n (c), changes racing a timer (r) and ticks (t, with
+    multiplicity), in order; the last six symbols."""
+    sym = []
+    for r in trows[:upto + 1]:
+        if r.get("ev") != "step" or not r.get("applied"):
+            continue
+        if r["op"] in ("change", "tchange") and NOTIF_OF.get(r.get("a1")) == n:
+            sym.append("c" if r["op"] == "change" else "r")
+        elif r["op"] == "tick" and sym:
+            sym.append("t")
     out = []
-    for o in ops:
-        if out and out[-1][0] == o:
-            out[-1][1] += 1
+    for o in sym:
+        if out and out[-1][0] == o and o == "t":
+            out[-1][1] = min(out[-1][1] + 1, 2)
         else:
             out.append([o, 1])
-    return ",".join(o if c == 1 else "%sx%d" % (o, c) for o, c in out[-10:])
+    return "".join(o if c == 1 else "%s%d" % (o, c) for o, c in out[-6:])
 
 
 def signature(f, trows, idx):
@@ -305,7 +332,7 @@ def signature(f, trows, idx):
                 if r.get("op") == "unsubscribe" and r.get("a1") == s and r.get("applied") and prev and not cur:
                     return CLOBBER_SIG
                 prev = cur
-        return "NeverLost:%s:%s:%s" % (era, x, ops_pattern(trows, idx))
+        return "NeverLost:%s:%s" % (era, ops_pattern(trows, idx, x))
     if clause == "OnlyEntitled":
         closed = any(r.get("ev") == "close.begin" and r.get("s") == s for r in trows[:idx])
         want = next((r.get("want") for r in trows if r.get("ev") == "connect" and r.get("s") == s), None) or []
@@ -343,7 +370,7 @@ def race_order(trows, i_step):
     sends = [r for r in seg if r.get("ev") == "notif.send" and r.get("n") == n]
     ref = bool(st.get("snap", {}).get("ref", {}).get(n))
     if not sends:
-        return "no-notification-at-instant"
+        return "no-notification-at-instant(other timer due, or no session)"
     if not ref:
         return "change-inside-window(reset-then-callback)"
     return "callback-first"
@@ -391,20 +418,25 @@ def run(tier, seed, replay):
             groups.setdefault((tag, json.dumps(steps_of(p))), []).append(p)
         reps = 2 if tier == "quick" else 6
         i = 0
+        # quick tier: the exhaustive cache sets are run completely up to 5 steps, the longer scripts by seeded sample
+        longer = sorted(k for k in groups if k[0].startswith("cachex") and len(json.loads(k[1])) > 5)
+        keep = set(rng.sample(longer, min(len(longer), 200))) if tier == "quick" else set(longer)
         for (tag, key), ps in sorted(groups.items()):
             steps = json.loads(key)
+            if tag.startswith("cachex") and len(steps) > 5 and (tag, key) not in keep:
+                continue
             sessions, init_on, ttl, cap_off, uris = CONF[tag]
             racy = any(s[0] == "tchange" for s in steps)
             variants = [(False, 0)]
             if racy:
                 variants = [(False, 0)] * reps + [(False, 4)]
-            elif tag != "window" and rng.random() < 0.3:
+            elif tag not in EXHAUSTIVE and rng.random() < 0.3:
                 variants = [(True, 0)]
             for (al, y) in variants:
                 i += 1
                 sc = concretise("%s.%d" % (tag, i), tag, steps, rng, sessions, init_on, ttl, cap_off, uris, autolist=al, yield_=y)
                 scen.append(sc)
-                alts[sc["id"]] = (ps, tag == "window")
+                alts[sc["id"]] = (ps, tag in EXHAUSTIVE)
         v.cov["tlc_generated_scenarios"] = len(groups)
 
     scen_path = os.path.join(out, "scenarios.ndjson")
@@ -422,12 +454,16 @@ def run(tier, seed, replay):
     v.cov["go_test_wall_s"] = round(wall, 1)
 
     # the verdict: TLA+ monitor, in chunks run side by side
-    nchunk = 1 if len(rows) < 20000 else min(4, 1 + len(rows) // 40000)
-    bounds, per = [], (len(traces) + nchunk - 1) // nchunk
-    for c in range(nchunk):
-        part = traces[c * per:(c + 1) * per]
-        if part:
-            bounds.append((part[0][1], part[-1][1] + len(part[-1][2]) - 1))
+    bounds, cur_lo, cur_n = [], None, 0
+    for tid, start, trows in traces:
+        if cur_lo is None:
+            cur_lo = start
+        cur_n += len(trows)
+        if cur_n >= 40000:
+            bounds.append((cur_lo, start + len(trows) - 1))
+            cur_lo, cur_n = None, 0
+    if cur_lo is not None:
+        bounds.append((cur_lo, traces[-1][1] + len(traces[-1][2]) - 1))
 
     def mon(lo, hi):
         def f():
